@@ -39,6 +39,9 @@ def main(argv=None):
     ap.add_argument("--param", action="append", default=[])
     ap.add_argument("--witnesses", type=int, default=24)
     ap.add_argument("--path-steps", type=int, default=1_500_000)
+    ap.add_argument("--partial-ok", action="store_true",
+                    help="a budget stop is reported as status 'partial' (explored part decided, rest stated as unexplored)")
+    ap.add_argument("--random-order", action="store_true", help="pop the work list in a seed-dependent order")
     a = ap.parse_args(argv)
 
     t0 = time.time()
@@ -48,6 +51,9 @@ def main(argv=None):
     m.known_classes = set(x for x in a.known.split(",") if x)
     m.deadline = t0 + a.budget_s
     m.path_step_limit = a.path_steps
+    if a.random_order:
+        import random as _r
+        m.order_rng = _r.Random(a.seed * 104729 + 7)
     import os
     m.trace = bool(os.environ.get("MIRSYM_TRACE"))
     if a.shard:
@@ -149,8 +155,8 @@ def main(argv=None):
         if fr is not None:
             reason += " [in %s bb%d]" % (fr.fn["name"], fr.bb)
     except Budget as e:
-        status = "inconclusive"
-        reason = "budget: %s" % e
+        status = "partial" if a.partial_ok else "inconclusive"
+        reason = "budget: %s (work list not exhausted: %d pending states)" % (e, len(m.worklist))
     except Exception as e:  # interpreter bug
         status = "inconclusive"
         reason = "internal: %s\n%s" % (e, traceback.format_exc())
